@@ -9,6 +9,7 @@ from concurrent.futures import ThreadPoolExecutor
 from . import common
 
 FIRST_CHAR_SPLIT = [[[0, 0x1f]], [[0x20, 0x7f]], [[0x80, 0xffff]], [[0x10000, 0x10ffff]]]
+FINE_SPLIT = [[[0, 0x0f]], [[0x10, 0x1f]], [[0x20, 0x2f]], [[0x30, 0x5b]], [[0x5c, 0x5f]], [[0x60, 0x7f]], [[0x80, 0x7ff]], [[0x800, 0xffff]], [[0x10000, 0x10ffff]]]
 
 
 def job_name(j):
@@ -32,7 +33,7 @@ def expand_split(jobs):
         if j['N'] >= 2 and j['fmt'] == 'zinc' and not j.get('split') and not j.get('alphabet') and not j.get('kind2'):
             from .textworker import ALPHABET
             alpha = ALPHABET.get(j['kind'])
-            for dom in FIRST_CHAR_SPLIT:
+            for dom in (FINE_SPLIT if j.get('fine_split') else FIRST_CHAR_SPLIT):
                 if alpha is not None and not any(lo <= dom[0][1] and hi >= dom[0][0] for lo, hi in alpha):
                     continue        # the kind's alphabet has no character in this class
                 jj = dict(j)
